@@ -5,4 +5,4 @@ From IronCalc Require Import Base.Prelude Base.Dec Codec.Column Codec.RefA1 Synt
 Extraction Language OCaml.
 Extraction "model_c13.ml"
   Displace.displace_text Displace.displace_range_text Displace.cell_map Displace.apply_disp_full
-  Displace.apply_disp_seq Displace.move_disps Displace.iterate_moves Displace.hidden_adjust Displace.move_valid.
+  Displace.apply_disp_seq Displace.move_disps Displace.iterate_moves Displace.hidden_adjust Displace.move_valid Displace.edit_valid.
